@@ -3,6 +3,7 @@ Model driver for the PBF parts of C01/C02 (exe model_pbf).  One op per line:
 
   enc  <opts> | <hdr> | <obj> | <obj> …     → hex of `Pbf.encodeFile` (the writer model)
   spec <choices> | <hdr> | <obj> | …        → hex of `PbfSpec.encode` (the specification encoder)
+  specmix <dm> <choices> | <hdr> | <obj> | … → hex of `PbfSpec.encodeMixed` (C05: dense/plain per PrimitiveGroup from the bits of <dm>)
   dec  <ropts> <hex>                        → `ok <dumpHeader> | <dump obj> | …`  or  `err`
   est  <opts> | <hdr> | <obj> | …           → `S <size()>:<count()> …` of the current block after every object
   proj <opts> | <hdr> | <obj> | …           → `ok <dumpHeader> | <dump obj> | …` of `project opts`
@@ -14,6 +15,7 @@ Model driver for the PBF parts of C01/C02 (exe model_pbf).  One op per line:
 import Driver.Common
 import Osmium.Model.Pbf
 import Osmium.Model.PbfSpec
+import Osmium.Model.PbfMixed
 
 open Osmium Osmium.Osm Osmium.Pbf
 
@@ -145,6 +147,10 @@ def handle (line : String) : String :=
       match PbfSpec.parseChoices ch, parseCase rest with
       | some ch, some (h, os) => Driver.hex (PbfSpec.encode ch h os)
       | _, _ => "bad-op"
+    | "specmix" :: dm :: ch =>
+      match dm.toNat?, PbfSpec.parseChoices ch, parseCase rest with
+      | some dm, some ch, some (h, os) => Driver.hex (PbfSpec.encodeMixed ch dm h os)
+      | _, _, _ => "bad-op"
     | ["dec", r, hx] =>
       match parseROpts r, Driver.unhex hx with
       | some r, some bs =>
